@@ -214,3 +214,45 @@ func VerifC17TwoCompactions() {
 	}
 	zzverif.Cover("done")
 }
+
+// VerifC17TTLWrites: on an engine with native TTL, a create / update / delete sequence on an Event
+// key, on a key that merely contains /events/ and on a plain key, with symbolic lease fields in
+// the requests (kube-apiserver sends leases through the etcd API): after every step, every record
+// in the engine that carries a TTL belongs to a key under <prefix>/events/ — no write path hands a
+// TTL to any other key, whatever lease the request names.
+func VerifC17TTLWrites() {
+	w := vNewWorld(1)
+	w.s.TTLSupported = true
+	key := vEventNames[zzverif.Choose("key", len(vEventNames))]
+	check := func(step string) {
+		for _, e := range w.s.Ents {
+			if e.TTL == 0 {
+				continue
+			}
+			name, _, err := w.b.coder.Decode(e.Key)
+			zzverif.Assert(err == nil, "a record with a TTL is a well-formed internal key")
+			zzverif.Assert(zzverif.HasPrefix(name, []byte(vPrefix+"/events/")), "only records of keys under <prefix>/events/ are written with a TTL ("+step+")")
+			zzverif.Cover("ttl-record")
+		}
+	}
+	c, err := w.b.Create(vCtx(), &proto.CreateRequest{Key: key, Value: []byte("c"), Lease: zzverif.I64("lease0")})
+	zzverif.Assert(err == nil && c.Succeeded, "create")
+	check("create")
+	zzverif.WaitIdle()
+	last := c.Header.Revision
+	n := zzverif.Param("updates", 1)
+	for i := 0; i < n; i++ {
+		u, err := w.b.Update(vCtx(), &proto.UpdateRequest{Kv: &proto.KeyValue{Key: key, Value: []byte("u"), Revision: last}, Lease: zzverif.I64("lease" + string(rune('1'+i)))})
+		zzverif.Assert(err == nil && u.Succeeded, "update")
+		last = u.Header.Revision
+		check("update")
+		zzverif.WaitIdle()
+	}
+	if zzverif.Choose("delete", 2) == 1 {
+		d, err := w.b.Delete(vCtx(), &proto.DeleteRequest{Key: key, Revision: last})
+		zzverif.Assert(err == nil && d.Succeeded, "delete")
+		check("delete")
+		zzverif.WaitIdle()
+	}
+	zzverif.Cover("done")
+}
